@@ -569,8 +569,9 @@ def variable_case(ctx, lines, keep, pd, vi, xoff):
     exp_raw1 = spec_unscale(d, x) if d['apply_scaling'] else x
     if not close(raw1, exp_raw1, 1e-11, 1e-15):
         ctx.fail('update writes inverse_scale(x) (x itself when unscaled) into the lens', case, raw1, exp_raw1)
-    if not close(float(var.variable.scale(var.variable.inverse_scale(x))), x, 1e-12, 1e-15) or \
-            not close(float(var.variable.inverse_scale(var.variable.scale(x))), x, 1e-12, 1e-15):
+    # (radius: v/100 - 1 and back: the offset 1 costs an absolute 1e-14 in the lens quantity)
+    if not close(float(var.variable.scale(var.variable.inverse_scale(x))), x, 1e-12, 1e-13) or \
+            not close(float(var.variable.inverse_scale(var.variable.scale(x))), x, 1e-12, 1e-13):
         ctx.fail('scale and inverse_scale are mutually inverse', case, [sc, inv], x)
     if not close(sc, spec_scale(d, x), 1e-12, 1e-15) or not close(inv, spec_unscale(d, x), 1e-12, 1e-15):
         ctx.fail('scale / inverse_scale follow the documented scaling of the type', case, [sc, inv],
